@@ -31,6 +31,8 @@ def run(ck, tier):
     _mp.run(ck, F, 'C07')
     from . import accum as _acc2
     _acc2.run2(ck, F, 'C07')
+    from . import relations as _rel
+    _rel.run(ck, F, 'C07')
     from . import c07x
     c07x.run(ck, F)
     c07x.run_exact_polarity(ck, F)
